@@ -169,7 +169,8 @@ impl_for_ca!(
 impl<'a> TIter<Option<&'a str>> for &'a ChunkedArray<StringType> {
     #[inline]
     fn titer(&self) -> impl TIterator<Item = Option<&'a str>> {
-        self.into_iter()
+        // polars' iterator keeps announcing its initial length; TrustIter counts down
+        self.into_iter().to_trust(self.len())
     }
 }
 
@@ -235,7 +236,7 @@ impl TIter<DateTime<unit::Nanosecond>> for &DatetimeChunked {
         match self.dtype() {
             DataType::Datetime(TimeUnit::Nanoseconds, _) => {
                 // TODO(Teamon): support timezone in future
-                self.into_iter().map(|v| v.cast())
+                self.into_iter().map(|v| v.cast()).to_trust(self.len())
             },
             _ => unreachable!("datetime chunked should be nanoseconds unit"),
         }
@@ -250,7 +251,7 @@ impl TIter<DateTime<unit::Millisecond>> for &DatetimeChunked {
         match self.dtype() {
             DataType::Datetime(TimeUnit::Milliseconds, _) => {
                 // TODO(Teamon): support timezone in future
-                self.into_iter().map(|v| v.cast())
+                self.into_iter().map(|v| v.cast()).to_trust(self.len())
             },
             _ => unreachable!("datetime chunked should be milliseconds unit"),
         }
@@ -265,7 +266,7 @@ impl TIter<DateTime<unit::Microsecond>> for &DatetimeChunked {
         match self.dtype() {
             DataType::Datetime(TimeUnit::Microseconds, _) => {
                 // TODO(Teamon): support timezone in future
-                self.into_iter().map(|v| v.cast())
+                self.into_iter().map(|v| v.cast()).to_trust(self.len())
             },
             _ => unreachable!("datetime chunked should be microseconds unit"),
         }
